@@ -29,8 +29,9 @@ def child_env(kind="plain"):
     return env
 
 
-def _run_chunk(so, jobs, timeout, kind):
-    """one child; returns (per-job results, unfinished jobs, failure or None)"""
+def _run_chunk(so, jobs, timeout, kind, stall=None):
+    """one child; returns (per-job results, finished jobs, status, last begun call, stderr tail, wall).
+    `stall`: kill the child when it prints nothing for that many seconds (a call that does not return)"""
     d = tempfile.mkdtemp(prefix="life_jobs_")
     try:
         spec = os.path.join(d, "jobs.json")
@@ -42,13 +43,29 @@ def _run_chunk(so, jobs, timeout, kind):
         with open(outp, "w") as fo, open(errp, "w") as fe:
             p = subprocess.Popen([sys.executable, "-W", "ignore", os.path.join(HERE, "life_child.py"), spec], stdout=fo, stderr=fe,
                                  env=child_env(kind))
-            try:
-                rc = p.wait(timeout=timeout)
-                status = "ok" if rc == 0 else "crash:%d" % rc
-            except subprocess.TimeoutExpired:
-                p.kill()
-                p.wait()
-                status = "timeout"
+            status = None
+            last_size, last_change = -1, time.time()
+            started = False
+            while status is None:
+                try:
+                    rc = p.wait(timeout=0.05)
+                    status = "ok" if rc == 0 else "crash:%d" % rc
+                    break
+                except subprocess.TimeoutExpired:
+                    pass
+                now = time.time()
+                try:
+                    sz = os.path.getsize(outp)
+                except OSError:
+                    sz = 0
+                if sz != last_size:
+                    last_size, last_change = sz, now
+                    started = started or sz > 0
+                limit = stall if (stall is not None and started) else None
+                if now - t0 > timeout or (limit is not None and now - last_change > limit):
+                    p.kill()
+                    p.wait()
+                    status = "timeout"
         wall = time.time() - t0
         lines = open(outp, encoding="utf-8", errors="replace").read().splitlines()
         err = open(errp, encoding="utf-8", errors="replace").read()[-1500:]
@@ -74,7 +91,7 @@ def _run_chunk(so, jobs, timeout, kind):
     return res, done, status, last_b, err, wall
 
 
-def run_jobs(jobs, kind="plain", per_job_timeout=20.0, chunk=12, parallel=6):
+def run_jobs(jobs, kind="plain", per_job_timeout=20.0, chunk=12, parallel=6, stall=None):
     """run every job (see life_child.py) in sandboxed children; returns {job id: {"results": [...],
     "status": "ok" | "crash:<rc>" | "timeout", "at": call index or None, "stderr": tail}}"""
     so = common.build_engine(kind)
@@ -89,7 +106,7 @@ def run_jobs(jobs, kind="plain", per_job_timeout=20.0, chunk=12, parallel=6):
         pending = list(ch)
         while pending:
             budget = 15.0 + sum(j.get("timeout", per_job_timeout) for j in pending)
-            res, done, status, last_b, err, wall = _run_chunk(so, pending, budget, kind)
+            res, done, status, last_b, err, wall = _run_chunk(so, pending, budget, kind, stall)
             nxt = []
             failed = None
             for j in pending:
